@@ -8,11 +8,10 @@ from harness import gen
 from harness.framework import Suite
 
 PID = "C05"
-READY = False
 LEAN_MODS = ["SwcVerif.Props.C05"]
 THEOREMS = [
     "C05.machine_eq_pre", "C05.sort_ok", "C05.sort_perm", "C05.sort_sorted", "C05.sort_parent", "C05.sort_root",
-    "C05.sort_indices", "C05.sort_columns", "C05.sort_again", "C05.isSorted_iff",
+    "C05.sort_indices", "C05.edge_is_row", "C05.sort_columns", "C05.sort_again", "C05.isSorted_iff",
 ]
 TRUSTED = ["hand-written model Model/Sort.lean of sort_nodes_impl (tied by the c05.sort correspondence suite: new parents, row indices and id map compared exactly)"]
 ASSUMPTIONS = [
